@@ -881,30 +881,64 @@ func (cs *Contracts) expandModSets(s string) string {
 }
 
 func (cs *Contracts) expandModSets1(s string) string {
-	re := regexp.MustCompile(`@(\w+)\(([^()]*)\)`)
-	return re.ReplaceAllStringFunc(s, func(m string) string {
-		sm := re.FindStringSubmatch(m)
-		ms, ok := cs.ModSets[sm[1]]
-		if !ok {
-			return m
+	var out strings.Builder
+	for i := 0; i < len(s); {
+		if s[i] != '@' {
+			out.WriteByte(s[i])
+			i++
+			continue
 		}
-		if ms[0] == "" {
-			return ms[1]
+		// @name(args) with balanced parentheses in args
+		j := i + 1
+		for j < len(s) && (s[j] == '_' || s[j] >= 'a' && s[j] <= 'z' || s[j] >= 'A' && s[j] <= 'Z' || s[j] >= '0' && s[j] <= '9') {
+			j++
 		}
-		params := strings.Split(ms[0], ",")
-		args := strings.Split(sm[2], ",")
-		if len(params) != len(args) {
-			return m
+		name := s[i+1 : j]
+		ms, ok := cs.ModSets[name]
+		if !ok || j >= len(s) || s[j] != '(' {
+			out.WriteByte(s[i])
+			i++
+			continue
 		}
-		// simultaneous substitution through placeholders
+		depth, k := 0, j
+		for ; k < len(s); k++ {
+			if s[k] == '(' {
+				depth++
+			} else if s[k] == ')' {
+				depth--
+				if depth == 0 {
+					break
+				}
+			}
+		}
+		if k >= len(s) {
+			out.WriteByte(s[i])
+			i++
+			continue
+		}
+		argText := s[j+1 : k]
+		if strings.Contains(argText, "@") {
+			argText = cs.expandModSets1(argText) // innermost first
+		}
 		body := ms[1]
-		for i, pn := range params {
-			pr := regexp.MustCompile(`\b` + regexp.QuoteMeta(strings.TrimSpace(pn)) + `\b`)
-			body = pr.ReplaceAllString(body, fmt.Sprintf("\x00%d\x00", i))
+		if ms[0] != "" {
+			params := strings.Split(ms[0], ",")
+			args := splitTop(argText)
+			if len(params) != len(args) {
+				out.WriteString(s[i : k+1])
+				i = k + 1
+				continue
+			}
+			for pi, pn := range params {
+				pr := regexp.MustCompile(`\b` + regexp.QuoteMeta(strings.TrimSpace(pn)) + `\b`)
+				body = pr.ReplaceAllString(body, fmt.Sprintf("\x00%d\x00", pi))
+			}
+			for ai, a := range args {
+				body = strings.ReplaceAll(body, fmt.Sprintf("\x00%d\x00", ai), strings.TrimSpace(a))
+			}
 		}
-		for i, a := range args {
-			body = strings.ReplaceAll(body, fmt.Sprintf("\x00%d\x00", i), strings.TrimSpace(a))
-		}
-		return body
-	})
+		out.WriteString(body)
+		i = k + 1
+	}
+	return out.String()
 }
